@@ -475,7 +475,18 @@ def run_suite(seed_value, shard, examples):
         @settings(max_examples=n, database=None, deadline=None, derandomize=False, suppress_health_check=list(HealthCheck), phases=[Phase.generate, Phase.shrink], print_blob=False)
         @given(strategy)
         def test(case):
-            chk(case)
+            try:
+                chk(case)
+            except Violation:
+                raise
+            except (KeyboardInterrupt, SystemExit, MemoryError):
+                raise
+            except RuntimeError as e:
+                if "oracle" in str(e):
+                    raise
+                violation(leg, case, "unexpected-exception", f"{type(e).__name__}: {str(e)[:300]}")
+            except BaseException as e:  # noqa: BLE001  (pyo3's PanicException derives from BaseException)
+                violation(leg, case, "unexpected-exception", f"{type(e).__name__}: {str(e)[:300]}")
 
         try:
             test()
